@@ -122,8 +122,14 @@ GAscending(r) == \A i \in 1..Len(r)-1 : r[i][1] <= r[i+1][1]
 (* ------------------------------------------------------------------ *)
 (* when may a call be refused?  (an exception instead of a result)     *)
 (* ------------------------------------------------------------------ *)
-\* an iterative solver that says it did not converge has not returned a wrong result
-ConvergenceFailures == {"ArpackNoConvergence", "NoConvergence"}
+\* an iterative solver that says loudly that it failed has not returned a wrong result:
+\*   ArpackNoConvergence  - ARPACK info = -1 (maxiter reached)
+\*   ArpackError          - any other ARPACK failure code, e.g. info = 3 "No shifts could be applied during a
+\*                          cycle of the implicitly restarted Arnoldi iteration" (Krylov space exhausted on a
+\*                          spectrum with very few distinct eigenvalues)
+\*   NoConvergence        - scipy's "did not converge" of an inner iterative solve (plain ValueError)
+\* Only the refusal is exempt: whenever values ARE returned they are judged by every other clause.
+ConvergenceFailures == {"ArpackNoConvergence", "ArpackError", "NoConvergence"}
 
 \* Hermitian partial solve.  path = the solver that runs (after auto-selection)
 HMayReject(backend, path, rep, brep, which, hasSigma, k, n) ==
